@@ -175,7 +175,8 @@ def mpe_case(ctx, inst, ug=None, cover=None, suite="K5.mpe", brute=True):
             if cyc:                      # diagnosis: is the gap explained by the column bound w_max = k * max f ?
                 wmax = k_model * ug.maxf
                 capped = errors.mpe_optimum(ug, k_model, phi, cap=wmax)
-                if capped is not None and capped == total:
+                # (the model may use walks outside the enumeration, so its value can be below the capped optimum)
+                if capped is None or capped >= total:
                     what += (f" — explained by the column bound w_max = k*max f = {show(wmax)}: every better choice needs "
                              f"weight x multiplicity (pi) or slack x multiplicity (gamma) above w_max")
             ctx.violation(what, dict(view, brute_force_optimum=qstr(opt)), site=f"{cls}.optimality")
